@@ -6,6 +6,7 @@ package packetdump
 import (
 	"fmt"
 	"io"
+	"maps"
 	"sync"
 
 	"github.com/pion/interceptor"
@@ -42,24 +43,28 @@ func (d *defaultPacketLogger) run() {
 	go d.loop()
 }
 
+// LogRTPPacket hands a copy of the packet to the logger goroutine: the caller may reuse the
+// header, the payload and the attributes as soon as the call returns.
 func (d *defaultPacketLogger) LogRTPPacket(header *rtp.Header, payload []byte, attributes interceptor.Attributes) {
 	select {
 	case d.rtpChan <- &rtpDump{
-		attributes: attributes,
+		attributes: maps.Clone(attributes),
 		packet: &rtp.Packet{
-			Header:  *header,
-			Payload: payload,
+			Header:  header.Clone(),
+			Payload: append([]byte(nil), payload...),
 		},
 	}:
 	case <-d.close:
 	}
 }
 
+// LogRTCPPackets hands a copy of the packet slice to the logger goroutine: the caller may reuse
+// the slice and the attributes as soon as the call returns.
 func (d *defaultPacketLogger) LogRTCPPackets(pkts []rtcp.Packet, attributes interceptor.Attributes) {
 	select {
 	case d.rtcpChan <- &rtcpDump{
-		attributes: attributes,
-		packets:    pkts,
+		attributes: maps.Clone(attributes),
+		packets:    append([]rtcp.Packet(nil), pkts...),
 	}:
 	case <-d.close:
 	}
